@@ -44,7 +44,8 @@ def _heap(focus, quick, thorough, asan_frac=6, extra_env=None):
         return [
             {"scen": "heap", "env": env, "runs": n, "configs": ["plain"], "chunk": 25},
             {"scen": "heap", "env": env, "runs": max(150, n // asan_frac), "configs": ["asan"], "first": 10_000_000, "chunk": 25},
-        ] + ([{"scen": "heap", "env": env, "runs": max(300, n // 8), "configs": ["o0"], "first": 20_000_000, "chunk": 25}] if focus == 1 else [])
+        ] + ([{"scen": "heap", "env": env, "runs": max(300, n // 8), "configs": ["o0"], "first": 20_000_000, "chunk": 25}] if focus == 1 else []
+        ) + ([{"scen": "heap", "env": dict(env, enum=1), "runs": 26 * (60 if tier == "quick" else 2500), "configs": ["plain"], "first": 60_000_000, "chunk": 26}] if focus in (1, 6) else [])
     return stages
 AVOID_KF_HEAP = 0
 
@@ -150,7 +151,9 @@ PROPS = {
         "rule": "one evaluation = one seeded heap-mutation plan (Nodes, Ref, Box, Array/List/Tuple of refs, Table/Tree with refs as keys or values; "
                 "roots = stack slots, root-registered holders, thread-local entries; links, unlinks, root drops, explicit dels, copies, chains) "
                 "mirrored by a shadow graph; collections happen only through the shipped threshold path, provoked by allocation-pressure bursts "
-                "placed by the plan, under seeded allocator placement (incl. adversarial, all registry slots colliding). After every operation "
+                "placed by the plan, under seeded allocator placement (incl. adversarial, all registry slots colliding). An enumeration stage runs "
+                "families of 26 plans that share one short base plan: members 0..12 place one burst after operation v (every collection point "
+                "in turn), members 13..25 cut the plan after v-13 operations (every teardown point in turn). After every operation "
                 "every object the shadow graph reaches must be un-finalised, its block live, its canary intact. Non-trivial = at least one "
                 "collection proven (a garbage object was released) while an object was reachable only through a non-stack path; distinct = distinct trace hashes.",
         "stages": _heap(1, 4000, 120_000, 10),
@@ -232,6 +235,8 @@ PROPS = {
             {"scen": "files", "env": {"faults": 1}, "runs": 15000 if tier == "quick" else 800_000, "configs": ["plain"], "first": 5_000_000},
             {"scen": "files", "env": {"faults": 0}, "runs": 800 if tier == "quick" else 100_000, "configs": ["asan"], "first": 10_000_000},
             {"scen": "files", "env": {"faults": 1}, "runs": 800 if tier == "quick" else 100_000, "configs": ["asan"], "first": 15_000_000},
+            # fault enumeration proper: every fault kind at every operation of short base plans (96 members per family)
+            {"scen": "files", "env": {"enum": 1}, "runs": 96 * (60 if tier == "quick" else 3000), "configs": ["plain"], "first": 60_000_000, "chunk": 96},
         ],
         "rare_probes": ["file.reopen", "file.op_after_close", "file.with", "file.del", "file.scan", "file.read_to_eof", "file.seek_origin0",
                         "file.seek_origin1", "file.seek_origin2", "io.fault_fired", "io.fault_raised_ioerror", "io.close_fault", "io.short_read"],
